@@ -4,6 +4,7 @@ Defined without high-temperature expansion and without resummation.
 """
 
 from abc import ABC, abstractmethod
+import copy
 from enum import Enum, auto
 import typing
 import numpy as np
@@ -93,7 +94,9 @@ class EffectivePotentialNoResum(EffectivePotential, ABC):
                 # TODO: find better way of doing this
                 from WallGo import PotentialTools  # import statement here to avoid circular import
 
-                self.integrals = PotentialTools.defaultIntegrals
+                # private copy: the settings below must not leak into the module-level
+                # defaultIntegrals shared by every other user in the process
+                self.integrals = copy.deepcopy(PotentialTools.defaultIntegrals)
 
                 self.integrals.Jb.disableAdaptiveInterpolation()
                 self.integrals.Jf.disableAdaptiveInterpolation()
